@@ -193,7 +193,9 @@ func cmdRun(args []string) int {
 			}
 			ldOf[h] = ld
 			insts := []int{}
-			if *tier == "quick" && len(h.QuickInstances) > 0 {
+			if *tier == "thorough" && len(h.ThoroughInstances) > 0 {
+				insts = h.ThoroughInstances
+			} else if *tier == "quick" && len(h.QuickInstances) > 0 {
 				insts = h.QuickInstances
 			} else {
 				for i := 0; i < h.Instances; i++ {
